@@ -191,7 +191,8 @@ fn esc(s: &str, rng: &mut Rng) -> String {
     out
 }
 
-const LET: [&str; 12] = ["a", "Z", "あ", "ん", "東", "京", "ア", "𠮷", "𩸽", "é", "1", "・"];
+// '#' and ';' are ordinary letters of a lexicon source (no comment lines, no other delimiter)
+const LET: [&str; 14] = ["a", "Z", "あ", "ん", "東", "京", "ア", "𠮷", "𩸽", "é", "1", "・", "#", ";"];
 
 fn rand_str(rng: &mut Rng) -> String {
     // lengths in UTF-16 units around the 1-byte / 2-byte length-prefix boundary
@@ -242,8 +243,18 @@ pub fn record(args: &[String]) -> i32 {
             let (key, head, reading, pos) = match twin { Some(t) => (rows[t].key.clone(), rows[t].head.clone(), rows[t].reading.clone(), rows[t].pos), None => (key, head, reading, rng.below(POS_T.len())) };
             rows.push(GRow { key, head, pos, norm, reading, dic, a: vec![], b: vec![], ws: vec![], syn: vec![], lid: rng.below(idmax as usize) as i64, rid: rng.below(idmax as usize) as i64, cost: rng.range(-32767, 32767) });
         }
+        // every fourth lexicon has no references at all (a line the reader loses or adds then shows as shifted entries, not as a refused
+        // source) and has lines that begin with '#' and ';'
+        let plain = run % 4 == 0;
+        if plain {
+            for r in rows.iter_mut() { r.dic = -1; }
+            let k = rows.len() / 2;
+            rows[k].key = format!("#{}", rows[k].key);
+            rows[0].key = format!(";{}", rows[0].key);
+        }
         // references (numeric and inline) and arrays of 0 / few / 127 items
         for i in 0..nrows {
+            if plain { break; }
             let mk = |rng: &mut Rng, rows: &Vec<GRow>| -> Vec<Value> {
                 let n = match rng.below(8) { 0 => 127, 1 | 2 => 2 + rng.below(3), _ => 0 };
                 (0..n).map(|_| { let t = rng.below(nrows); if rng.chance(1, 3) && rows[t].key == rows[t].head { json!({"k": "inline", "s": cps(&rows[t].key), "p": rows[t].pos, "r": cps(&rows[t].reading), "t": t}) } else { json!({"k": "id", "w": t}) } }).collect()
